@@ -646,3 +646,171 @@ mod tests {
         crate::assert_eq_str!(SAMPLE_FEA, reconstruct);
     }
 }
+
+// ---- verification hooks (add-only, compiled only with `--cfg fontc_verif`) ----
+/// What [`Node::verif_drive`] observed.
+#[cfg(fontc_verif)]
+#[allow(missing_docs)]
+#[derive(Debug, Default)]
+pub struct VerifDriveOut {
+    /// index of the op being executed (the op that panicked, if the call unwinds)
+    pub cur_op: usize,
+    /// for every completed finish op: (op index, children of the open node before the call,
+    /// cur_node_contains_error before, kind of the open node, the node that was pushed,
+    /// diagnostics recorded during the call, text_pos)
+    #[allow(clippy::type_complexity)]
+    pub finishes: Vec<(
+        usize,
+        Vec<NodeOrToken>,
+        bool,
+        Option<u16>,
+        Option<NodeOrToken>,
+        Vec<(usize, usize, bool)>,
+        usize,
+    )>,
+    pub done: bool,
+    pub text_pos: usize,
+    pub children: Vec<NodeOrToken>,
+    pub parents: Vec<(u16, usize)>,
+    pub errors: Vec<(usize, usize, bool)>,
+    pub cur_err: bool,
+    pub include_count: usize,
+    /// (start_pos, trivia_len, number of trivia lexemes, kind, len) per lookahead slot
+    pub buf: Vec<(usize, usize, usize, u16, usize)>,
+    /// `AstSink::finish()` when the builder holds exactly one node and no open parent
+    pub root: Option<Node>,
+}
+
+#[cfg(fontc_verif)]
+impl Node {
+    /// The real lexer's output for `text`.
+    pub fn verif_lex(text: &str) -> Vec<(u16, usize)> {
+        crate::parse::Parser::verif_lex(text)
+    }
+
+    /// An empty observation record for [`Node::verif_drive`].
+    pub fn verif_out() -> VerifDriveOut {
+        VerifDriveOut::default()
+    }
+
+    /// `Kind` from its discriminant.
+    pub fn verif_kind(k: u16) -> Kind {
+        assert!(k <= Kind::GlyphsNumberIdent as u16, "bad kind {k}");
+        // SAFETY: Kind is repr(u16), fieldless, contiguous from 0.
+        unsafe { std::mem::transmute::<u16, Kind>(k) }
+    }
+
+    /// Drive the real `Parser` / `AstSink` with primitive calls.
+    ///
+    /// op = (code, a, b, parts):
+    /// 0 start_node(a) · 1 finish_node(None) · 2 finish_and_remap_node(a) · 3 eat_trivia ·
+    /// 4 eat_raw · 5 do_bump::<b>(a) · 6 split_remap_current(parts) · 7 err · 8 warn ·
+    /// 9 err_before_ws · 10 warn_before_ws · 11 raw_error(a..b)
+    ///
+    /// `out` is filled as the calls complete, so that it survives a panic.
+    #[allow(clippy::type_complexity)]
+    pub fn verif_drive(
+        text: &str,
+        glyph_map: Option<&GlyphMap>,
+        ops: &[(u8, usize, usize, Vec<(usize, usize, u16)>)],
+        out: &mut VerifDriveOut,
+    ) {
+        fn diags(sink_errs: &[Diagnostic], from: usize) -> Vec<(usize, usize, bool)> {
+            sink_errs[from..]
+                .iter()
+                .map(|e| (e.span().start, e.span().end, e.is_error()))
+                .collect()
+        }
+        let mut sink = AstSink::new(text, FileId::CURRENT_FILE, glyph_map);
+        {
+            let mut parser = crate::parse::Parser::new(text, &mut sink);
+            for (i, (code, a, b, parts)) in ops.iter().enumerate() {
+                out.cur_op = i;
+                match code {
+                    0 => parser.start_node(Self::verif_kind(*a as u16)),
+                    1 | 2 => {
+                        let (before, nerr, cur_err, pk, tp) = parser.verif_sink_snapshot();
+                        if *code == 1 {
+                            parser.finish_node()
+                        } else {
+                            parser.finish_and_remap_node(Self::verif_kind(*a as u16))
+                        }
+                        let (last, errs) = parser.verif_sink_after(nerr);
+                        out.finishes.push((i, before, cur_err, pk, last, errs, tp));
+                    }
+                    3 => parser.eat_trivia(),
+                    4 => parser.eat_raw(),
+                    5 => parser.verif_do_bump(*b, Self::verif_kind(*a as u16)),
+                    6 => {
+                        let p: Vec<_> = parts
+                            .iter()
+                            .map(|(x, y, k)| (*x, *y, Self::verif_kind(*k)))
+                            .collect();
+                        parser.verif_split(&p);
+                    }
+                    7 => parser.err("verif"),
+                    8 => parser.warn("verif"),
+                    9 => parser.err_before_ws("verif"),
+                    10 => parser.warn_before_ws("verif"),
+                    11 => parser.raw_error(*a..*b, "verif"),
+                    _ => panic!("verif_drive: unknown op"),
+                }
+            }
+            out.cur_op = ops.len();
+            out.buf = parser.verif_buf();
+        }
+        out.text_pos = sink.text_pos;
+        out.children = sink.builder.children.clone();
+        out.parents = sink
+            .builder
+            .parents
+            .iter()
+            .map(|(k, i)| (*k as u16, *i))
+            .collect();
+        out.errors = diags(&sink.errors, 0);
+        out.cur_err = sink.cur_node_contains_error;
+        out.include_count = sink.include_statement_count;
+        out.done = true;
+        if sink.builder.children.len() == 1
+            && sink.builder.children[0].as_node().is_some()
+            && sink.builder.parents.is_empty()
+        {
+            out.root = Some(sink.finish().0);
+        }
+    }
+}
+
+#[cfg(fontc_verif)]
+impl<'a> AstSink<'a> {
+    /// children of the currently open node, number of errors so far, error flag, open kind
+    pub(crate) fn verif_snapshot(&self) -> (Vec<NodeOrToken>, usize, bool, Option<u16>, usize) {
+        let idx = self
+            .builder
+            .parents
+            .last()
+            .map(|(_, i)| *i)
+            .unwrap_or(self.builder.children.len());
+        let idx = idx.min(self.builder.children.len());
+        (
+            self.builder.children[idx..].to_vec(),
+            self.errors.len(),
+            self.cur_node_contains_error,
+            self.builder.parents.last().map(|(k, _)| *k as u16),
+            self.text_pos,
+        )
+    }
+
+    /// the last child, and the diagnostics recorded since `from`
+    pub(crate) fn verif_after(
+        &self,
+        from: usize,
+    ) -> (Option<NodeOrToken>, Vec<(usize, usize, bool)>) {
+        (
+            self.builder.children.last().cloned(),
+            self.errors[from..]
+                .iter()
+                .map(|e| (e.span().start, e.span().end, e.is_error()))
+                .collect(),
+        )
+    }
+}
